@@ -424,11 +424,15 @@ def big_stage(ctx, zr, stats, samples, configs, n=5200):
     """Collections of more than 5000 elements (RangeDeleteNum / MAX_BATCH_NUM): LTRIM, the clears and
     ZREMRANGEBY* take other code paths there.  spec/ZBigTrace.tla (interval model + pure C09 predicate
     on counts-only observation lines) decides."""
-    for eng, pol in configs:
-        name = "big-%s-%s" % (eng, pol)
+    for cfg in configs:
+        eng, pol = cfg[0], cfg[1]
+        idx = len(cfg) > 2 and cfg[2]
+        # idx: a secondary hash index is registered on the table first (clears / deletes of indexed tables
+        # walk the fields instead of range-deleting them)
+        name = "big-%s-%s%s" % (eng, pol, "-idx" if idx else "")
         d = ctx.sub("run-" + name)
         rc, out, summ = run_driver(ctx, zr, d, ["-eng", eng, "-policy", pol, "-big", str(n), "-seed", str(ctx.seed),
-                                                "-o", os.path.join(d, "t"), "-parts", "1"], timeout=900)
+                                                "-o", os.path.join(d, "t"), "-parts", "1"] + (["-bigindex"] if idx else []), timeout=900)
         f = os.path.join(d, "t.0.ndjson")
         if rc != 0 or not summ or not os.path.exists(f):
             ctx.log("smsim %s did not complete (rc=%s): %s" % (name, rc, out[-300:]))
@@ -464,8 +468,8 @@ def big_stage(ctx, zr, stats, samples, configs, n=5200):
             sig = {"class": cls, "trigger": "none", "cmd": "big-" + str(seg[-1].get("op") or seg[-1].get("ev")),
                    "engine": eng, "policy": pol, "expiry": False}
             V.report_failure(ctx, sig, what, files=[segf],
-                             script={"replay": "zrdrive smsim -eng %s -policy %s -big %d -o out -parts 1 ; ZR_TRACE=out.0.ndjson "
-                                               "tlc -config ZBigTrace.cfg ZBigTrace" % (eng, pol, n)})
+                             script={"replay": "zrdrive smsim -eng %s -policy %s -big %d%s -o out -parts 1 ; ZR_TRACE=out.0.ndjson "
+                                               "tlc -config ZBigTrace.cfg ZBigTrace" % (eng, pol, n, " -bigindex" if idx else "")})
 
 
 SPEC_MUTANTS = [("overwrite_keeps_expiry", "OverwriteClearsExpiry"), ("modify_clears_expiry", "ModifyKeepsExpiry"),
@@ -646,6 +650,10 @@ def run_family(ctx, prop):
             ("rand-mem-ld", "ld", ["-eng", "mem", "-policy", "ld", "-random", R(10), "-len", "200",
                                    "-pool", str(mpool), "-nowtick", "12"]),
         ]
+    # range reads (LIMIT offset count with every small offset and negative / zero / large counts, index ranges) dense
+    if prop == "C08":
+        walks.append(("rand-pebble-wc-ranges", "wc", ["-eng", "pebble", "-policy", "wc", "-random", R(15), "-len", "200", "-types", "zl",
+                                                      "-expiry=false", "-dup", "-nk", "2", "-pool", str((pool + 5) % 8), "-nowtick", "5"]))
     # bitmaps: a keyspace of their own (no string under the same key: finding kv-bitmap-legacy-conversion)
     walks.append(("rand-pebble-wc-bitmap", "wc", ["-eng", "pebble", "-policy", "wc", "-random", R(12), "-len", "200", "-types", "b",
                                                   "-group", "2", "-nk", "2", "-pool", str((pool + 1) % 8), "-nowtick", "20"]))
@@ -673,6 +681,15 @@ def run_family(ctx, prop):
         drive_and_validate(ctx, zr, "regress-" + eng,
                            ["-eng", eng, "-policy", "wc", "-script", os.path.join(CHECKS, "kv_regress.ndjson"), "-seed", seed,
                             "-pool", pl, "-nk", "2", "-ns", "3", "-nowtick", "2", "-obsall", "3"], "wc", stats, samples, parts=1)
+
+    # ---- re-creation: every command that can create a key x every way of emptying / clearing / expiring it x every
+    # creating command again (other member): the new generation must be empty.  State-graph walks do not force this
+    # history (the state after a clear IS the initial state, its edges are mostly taken from there).
+    for eng, pol, pl in ((("pebble", "wc", str(pool)), ("pebble", "ld", str(pool))) if quick
+                         else (("pebble", "wc", str(pool)), ("pebble", "ld", str(pool)), ("mem", "wc", str(mpool)))):
+        drive_and_validate(ctx, zr, "recreate-%s-%s" % (eng, pol),
+                           ["-eng", eng, "-policy", pol, "-script", os.path.join(CHECKS, "kv_recreate.ndjson"), "-seed", seed,
+                            "-pool", pl, "-nk", "1", "-ns", "3", "-nowtick", "5", "-obsall", "0"], pol, stats, samples, parts=2)
 
     # ---- numeric extremes (int64 min/max values, deltas, durations, indexes) as a script: fully strict
     # except for the recorded findings kv-incr-overflow-wraps / kv-expire-duration-overflow
@@ -713,7 +730,8 @@ def run_family(ctx, prop):
     # ---- collections above the 5000-element thresholds (counts-only observations)
     if prop in ("C08", "C09"):
         big_stage(ctx, zr, stats, samples,
-                  [("pebble", "wc"), ("pebble", "ld")] if (quick or smoke) else [("pebble", "wc"), ("pebble", "ld"), ("mem", "wc"), ("mem", "ld")])
+                  [("pebble", "wc"), ("pebble", "ld"), ("pebble", "ld", True)] if (quick or smoke)
+                  else [("pebble", "wc"), ("pebble", "ld"), ("mem", "wc"), ("mem", "ld"), ("pebble", "wc", True), ("pebble", "ld", True), ("mem", "ld", True)])
     selftest = None
     mutants = None
     if not quick:
